@@ -189,6 +189,7 @@ type Ctx interface {
 	SetHeader(k, v string)
 	WriteString(s string)           // Context.WriteString: panics with the write error, like rux
 	Blob(status int, data string)   // Context.Blob: status, content type, then the data if there is any
+	Peek() // every read-only getter of the context (what it returns is edited where it is a map): nothing changes
 	Stream(status int, data string) // Context.Stream: status, content type, then the reader's bytes (errors are recorded)
 	Length() int
 	Set(k string, v any)
@@ -332,6 +333,7 @@ func Run(s *Script, c Ctx, tr *Trace) {
 			tr.Thrown = v
 			panic(v)
 		case OpObserve:
+			c.Peek()
 			tr.Add("  %s observes%s data={%s} errors=%d params={%s}", s.Name, ab(c), dataText(c.Data()), c.NumErrors(), paramsText(c.Params()))
 		case OpHTTPError:
 			http.Error(c.Resp(), o.S, o.N)
@@ -473,6 +475,33 @@ func (r *RCtx) WithReqCtxValue(k, v string) { r.C.WithReqCtxValue(ctxKey(k), v) 
 func (r *RCtx) ReqCtxValue(k string) any    { return r.C.ReqCtxValue(ctxKey(k)) }
 func (r *RCtx) ObserveAborted() bool        { return !r.NoAbt }
 
+// Peek calls the getters of the context, as logging, metrics or debugging code does anywhere in a chain.
+func (r *RCtx) Peek() {
+	c := r.C
+	_, _, _ = c.Length(), c.StatusCode(), c.IsAborted()
+	_ = c.RawWriter()
+	_, _ = c.AcceptedTypes(), c.ContentType()
+	if vs := c.QueryValues(); vs != nil { // the values handed out are the caller's: it builds a link from them
+		vs.Set("page", "edited-by-the-caller")
+		vs.Del("token")
+		for k := range vs {
+			vs[k] = append(vs[k], "appended-by-the-caller")
+		}
+	}
+	_ = c.Query("page")
+	_, _ = c.QueryParams("tag")
+	_, _, _ = c.Handler(), c.HandlerName(), c.Router()
+	_, _ = c.URL(), c.ClientIP()
+	_, _, _ = c.Header("X-Any"), c.IsAjax(), c.IsWebSocket()
+	_, _ = c.Param("id"), c.Param("file")
+	_ = c.FirstError()
+	_, _ = c.Get("no-such-key")
+	_ = c.SafeGet("no-such-key")
+	_ = c.ReqCtxValue("no-such-key")
+	_, _ = c.Deadline()
+	_, _ = c.Err(), c.Value("no-such-key")
+}
+
 // ---------------------------------------------------------------- model context
 
 // MCtx is the model of a request context: a pointer to the next handler not
@@ -585,5 +614,6 @@ func (m *MCtx) ReqCtxValue(k string) any {
 	return nil
 }
 func (m *MCtx) ObserveAborted() bool { return !m.NoAbt }
+func (m *MCtx) Peek()                {}
 func (m *MCtx) Yield()               {}
 func (m *MCtx) CopyForLater()        {}
